@@ -28,6 +28,27 @@ func init() {
 // boolParamEdges returns the true/false edges of every test of parent's single
 // bool parameter inside fn (fn may be the function itself or a closure that
 // captured the parameter).
+// ctlParamOf: the one bool parameter of the function fn is (nested in).
+func ctlParamOf(fn *ssa.Function) ssa.Value {
+	root := fn
+	for root.Parent() != nil {
+		root = root.Parent()
+	}
+	var param *ssa.Parameter
+	for _, p := range root.Params {
+		if b, ok := p.Type().Underlying().(*types.Basic); ok && b.Kind() == types.Bool {
+			if param != nil {
+				return nil
+			}
+			param = p
+		}
+	}
+	if param == nil {
+		return nil
+	}
+	return param
+}
+
 func boolParamEdges(fn *ssa.Function) (tr, fa []cfgx.Edge, found bool) {
 	root := fn
 	for root.Parent() != nil {
@@ -176,7 +197,7 @@ func c16(c *Ctx) {
 					if v, ok := cfgx.ConstBool(st.Val); ok && v {
 						c.requireCross(load.FuncName(f)+": existing object validated", st, updDry, "ok(e.update(..., DryRunAll))")
 					} else if ok {
-						c.requireCross(load.FuncName(f)+": missing object validated", st, union(creDry, ctlFalse), "ok(e.create(..., DryRunAll)) or control==false")
+						c.requireCrossOrKnow(load.FuncName(f)+": missing object validated", st, union(creDry, ctlFalse), ctlParamOf(f), false, "ok(e.create(..., DryRunAll)) or control==false")
 					} else if phi, isPhi := st.Val.(*ssa.Phi); isPhi {
 						// one record whose Exists is set per branch: each value is judged on the edge it arrives over
 						for i, e := range phi.Edges {
@@ -200,7 +221,7 @@ func c16(c *Ctx) {
 							case kv:
 								c.requireCross(load.FuncName(f)+": existing object validated", term, updDry, "ok(e.update(..., DryRunAll))")
 							default:
-								c.requireCross(load.FuncName(f)+": missing object validated", term, union(creDry, ctlFalse), "ok(e.create(..., DryRunAll)) or control==false")
+								c.requireCrossOrKnow(load.FuncName(f)+": missing object validated", term, union(creDry, ctlFalse), ctlParamOf(f), false, "ok(e.create(..., DryRunAll)) or control==false")
 							}
 						}
 					} else {
@@ -236,7 +257,7 @@ func c16(c *Ctx) {
 						continue
 					}
 					sends++
-					c.requireCross(load.FuncName(f)+": object handed over only after its dry run #"+itoa(sends), in, gates, "ok(e.update/e.create(..., DryRunAll)) or control==false")
+					c.requireCrossOrKnow(load.FuncName(f)+": object handed over only after its dry run #"+itoa(sends), in, gates, ctlParamOf(f), false, "ok(e.update/e.create(..., DryRunAll)) or control==false")
 				}
 			}
 		}
